@@ -109,7 +109,8 @@ class Faults:
         p = self.plan.get(id(node))
         if p and p[0] != 'return' and p[1] == point:
             self.hits += 1
-            raise p[0]('injected %s fault in %s' % (point, node.name))
+            # the message is data: characters that mean something to str.format / % must pass through the warning unharmed
+            raise p[0]('injected %s fault in %s' % (point, node.name) + ' {braces} {0} {} } { %s %d %(k)s 100%')
 
 
 FAULTS = Faults()
@@ -433,7 +434,7 @@ def scalar_printer_child(arg):
         if is_failing(value):
             state['fail_hits'] = state.get('fail_hits', 0) + 1
             if state['mode'] == 'raise':
-                raise EXCS[excname]('injected')
+                raise EXCS[excname]('injected {braces} {0} {} } { %s %(k)s')
             if state['mode'] == 'invalid':
                 return invalid
             return repr(value)
